@@ -81,6 +81,15 @@ var (
 				// short-circuit so both diags get collected.
 				return cty.NilVal, nil
 
+			// A null operand is not false, so it can never be the controlling
+			// condition. Unless the other operand is a known false, proceed as
+			// normal so that the null operand is reported as an error, as it
+			// already is for ||.
+			case lhs.IsKnown() && lhs.IsNull() && !(rhs.IsKnown() && !rhs.IsNull() && rhs.False()):
+				return cty.NilVal, nil
+			case rhs.IsKnown() && rhs.IsNull() && !(lhs.IsKnown() && !lhs.IsNull() && lhs.False()):
+				return cty.NilVal, nil
+
 			// For &&, a single false is the controlling condition
 			case lhs.IsKnown() && lhs.False():
 				return cty.False, lhsDiags
